@@ -43,7 +43,7 @@ def str_cutoff(string: str, max_length: int, cut_tail: bool = False) -> str:
 
     if len(string) > max_length:
         pos = max_length - 1
-        return string[:pos] + "#" if cut_tail else "#" + string[-pos:]
+        return string[:pos] + "#" if cut_tail else "#" + string[len(string) - pos :]
 
     return string
 
